@@ -32,6 +32,20 @@ type Mut struct {
 	Val   int64  `json:"val,omitempty"`   // integer value; for bytes fields the new length
 }
 
+// MarshalJSON writes only the members that are meaningful for the kind, but
+// always those (a zero message index or value is spelled out).
+func (m Mut) MarshalJSON() ([]byte, error) {
+	switch m.Kind {
+	case "trunc":
+		return []byte(fmt.Sprintf(`{"kind":"trunc","cut":%d}`, m.Cut)), nil
+	case "set":
+		return []byte(fmt.Sprintf(`{"kind":"set","msg":%d,"field":%q,"val":%d}`, m.Msg, m.Field, m.Val)), nil
+	case "hdr":
+		return []byte(fmt.Sprintf(`{"kind":"hdr","field":%q,"val":%d}`, m.Field, m.Val)), nil
+	}
+	return []byte(fmt.Sprintf(`{"kind":%q,"msg":%d}`, m.Kind, m.Msg)), nil
+}
+
 func (m Mut) String() string {
 	switch m.Kind {
 	case "trunc":
@@ -508,7 +522,7 @@ func hdrMuts() []Mut {
 	for _, v := range []int64{3, 7, 2049, -1} {
 		out = append(out, Mut{Kind: "hdr", Field: "algorithm", Val: v})
 	}
-	for _, v := range []int64{-1, 0, 1, 12, 1 << 31 - 1, -1 << 31} {
+	for _, v := range []int64{-1, 0, 1, 12, 1<<31 - 1, -1 << 31} {
 		out = append(out, Mut{Kind: "hdr", Field: "quality", Val: v})
 	}
 	return out
